@@ -31,6 +31,13 @@ LEM = {'cats': {'n': ['cat'], 'v': ['cat', 'cats']}, 'running': {'v': ['run'], '
 
 def tweak(rng, u):
     u['resources'].append(crafted(rng))
+    # a second version that reuses every identifier: with both versions in scope, distinct entities share id strings
+    import copy
+    nm, r2 = copy.deepcopy(u['resources'][-1])
+    r2['lexicons'][0]['version'] = '2'
+    if rng.random() < 0.5:
+        r2['lexicons'][0]['entries'] = r2['lexicons'][0]['entries'][::-1]
+    u['resources'].append(('sf:2', r2))
     u['searches'] = [[f, p] for f in rng.sample(coremodel.SEARCH_FORMS, 10) + ['Dogs', 'Poles', 'Résumés', 'poles', 'POLE', 'Résumé', 'dogs'] for p in rng.sample([None, None, 'n', 'v', 'a', 'x'], 2)]
     u['translate_to'] = None
     cfgs = []
@@ -43,7 +50,8 @@ def tweak(rng, u):
                     c['lemmatizer'] = lem
                 cfgs.append(c)
     rng.shuffle(cfgs)
-    u['configs'] = cfgs[:9] + [{}, {'lang': 'en'}]
+    u['configs'] = cfgs[:9] + [{}, {'lang': 'en'}, {'lexicon': 'sf:1 sf:2', 'expand': ''},
+                               {'lexicon': 'sf:*', 'expand': '', 'normalizer': rng.random() < 0.5, 'lemmatizer': LEM}]
 
 
 def run(rep, tier, build, replay=None):
